@@ -70,6 +70,12 @@ func genOp(rt *rapid.T, m *model, probeCase bool, excl *bool) (Op, bool) {
 		if len(m.sc) >= 4 {
 			ew = 3
 		}
+		for c := 1; c < len(m.cx); c++ {
+			if !m.cx[c].done && m.hasLiveIsoKid(c) {
+				ew = 5 // an isolated chain is standing: end its middle while the leaf is alive
+				break
+			}
+		}
 		ks = append(ks, kindW{"on", 14}, kindW{"err", ew}, kindW{"kill", ew}, kindW{"stop", ew})
 	}
 	if len(open) > 0 {
@@ -145,7 +151,15 @@ func genOp(rt *rapid.T, m *model, probeCase bool, excl *bool) (Op, bool) {
 				}
 			}
 		}
-		return Op{K: "child", S: p, Iso: hx.Chance(rt, 40, "iso")}, true
+		// chains of isolated contexts (isolated child of an isolated child ...): more likely to
+		// continue below an isolated parent; 60 % of the isolated contexts are built from the
+		// parent's bare context object, the way production code nests them
+		ip := 40
+		if m.sc[p].ctx != 0 {
+			ip = 65
+		}
+		iso := hx.Chance(rt, ip, "iso")
+		return Op{K: "child", S: p, Iso: iso, Bare: iso && hx.Chance(rt, 60, "bare")}, true
 	case "add":
 		c := addable
 		if len(c) == 0 || hx.Chance(rt, 4, "add-on-done") {
@@ -157,6 +171,15 @@ func genOp(rt *rapid.T, m *model, probeCase bool, excl *bool) (Op, bool) {
 	case "err", "kill", "stop":
 		// half of the time inside an isolated context when there is one (a failure of the root
 		// context ends the growth of everything that shares it)
+		// a third of the time on an INTERMEDIATE isolated level: an isolated context that still
+		// has a live isolated context below it (the leaf must follow its direct parent)
+		mid := scopesWhere(m, func(s int) bool {
+			c := m.sc[s].ctx
+			return !m.sc[s].closed && c != 0 && !m.cx[c].done && m.hasLiveIsoKid(c)
+		})
+		if len(mid) > 0 && hx.Chance(rt, 35, "on-mid") {
+			return Op{K: kind, S: pick(mid, "s")}, true
+		}
 		iso := scopesWhere(m, func(s int) bool { return !m.sc[s].closed && m.sc[s].ctx != 0 })
 		if len(iso) > 0 && hx.Chance(rt, 50, "in-iso") {
 			return Op{K: kind, S: pick(iso, "s")}, true
